@@ -292,6 +292,7 @@ func c16Items() []c16Item {
 		{b: hx("0610 0421 0000"), tcpFatal: true, name: "total-length-0"},
 		{b: hx("0610 0421 0003"), tcpFatal: true, name: "total-length-3"},
 		{b: hx("0610"), tcpFatal: true, name: "truncated-header"},
+		{b: []byte{}, tcpFatal: false, name: "empty-datagram"},
 	}
 }
 
@@ -466,6 +467,98 @@ func c16CloseAbandoned(tcp bool) func() {
 		mc.Sleep(5 * ms)
 		censusNote()
 	}
+}
+
+// c03FullStack (registered under C03): the real tunnel on the real socket layer. The application's
+// Send loses its first acknowledgement (so it retransmits) while the gateway sends requests of its
+// own, which the connection server acknowledges through the same socket at the same instants.
+// Every write that carries the application's request must be byte-identical.
+func c03FullStack() func() {
+	return func() {
+		w := vnet.Reset()
+		var ep *vnet.Endpoint
+		acks := 0
+		w.OnCreate = func(e *vnet.Endpoint) {
+			ep = e
+			e.OnWrite = func(wr vnet.WriteRec) {
+				mc.Log(Wrote{hex.EncodeToString(wr.Data)})
+				var v knxnet.Service
+				if _, err := knxnet.Unpack(wr.Data, &v); err != nil {
+					return
+				}
+				switch x := v.(type) {
+				case *knxnet.ConnReq:
+					e.Inject(pack(&knxnet.ConnRes{Channel: 7, Status: 0, Control: knxnet.HostInfo{Protocol: knxnet.UDP4}}), nil)
+				case *knxnet.TunnelReq:
+					acks++
+					if acks >= 2 { // the first transmission stays unanswered
+						e.Inject(pack(&knxnet.TunnelRes{Channel: x.Channel, SeqNumber: x.SeqNumber, Status: 0}), nil)
+					}
+				}
+			}
+		}
+		t, err := knx.NewTunnel("192.0.2.99:3671", knxnet.TunnelLayerData, TCfg(100, 350, 100000000))
+		if err != nil {
+			mc.Log(Note("connect failed: " + err.Error()))
+			return
+		}
+		mc.GoEnv("reader", func() {
+			for {
+				if _, ok := t.Inbound().Recv2(); !ok {
+					return
+				}
+			}
+		})
+		mc.GoEnv("gateway-traffic", func() {
+			for i := 0; i < 3; i++ {
+				ep.Inject(pack(&knxnet.TunnelReq{Channel: 7, SeqNumber: uint8(i), Payload: ldata(3)}), nil)
+				mc.Sleep(100 * ms)
+			}
+		})
+		want := pack(&knxnet.TunnelReq{Channel: 7, SeqNumber: 0, Payload: ldata(12)})
+		mc.Log(SendVal{0, hex.EncodeToString(want)})
+		err = t.Send(ldata(12))
+		mc.Log(Ret{"Send", 0, errStr(err), mc.Now()})
+		mc.Sleep(50 * ms)
+		t.Close()
+	}
+}
+
+func c03FullStackOracle(tr *mc.Trace) []h.Violation {
+	vs := generic(tr, "C03", true)
+	want := ""
+	for _, e := range tr.Log {
+		switch x := e.V.(type) {
+		case SendVal:
+			want = x.Hex
+		case Ret:
+			if x.Call == "Send" && x.Err != "" {
+				vs = append(vs, h.Violation{Class: "C03:fullstack-send-failed", Msg: "Send failed: " + x.Err})
+			}
+		}
+	}
+	n := 0
+	for _, e := range tr.Log {
+		wr, ok := e.V.(Wrote)
+		if !ok {
+			continue
+		}
+		b, _ := hex.DecodeString(wr.Hex)
+		if len(b) < 6 || (int(b[4])<<8|int(b[5])) != len(b) {
+			vs = append(vs, h.Violation{Class: "C03:transmission-corrupt", Msg: fmt.Sprintf("a buffer of %d octets left the socket whose header announces %d: %s", len(b), int(b[4])<<8|int(b[5]), wr.Hex)})
+			continue
+		}
+		if b[2] == 0x04 && b[3] == 0x20 { // a tunnelling request: only the application sends those here
+			n++
+			if wr.Hex != want {
+				vs = append(vs, h.Violation{Class: "C03:retransmission-differs", Msg: fmt.Sprintf("transmission %d of the request is %s; the request is %s", n, wr.Hex, want)})
+			}
+		}
+	}
+	if tr.Reason == "main-returned" && n != 2 {
+		vs = append(vs, h.Violation{Class: "C03:fullstack-transmission-count", Msg: fmt.Sprintf("%d transmissions of the request, want 2 (first one unanswered, retransmission acknowledged)", n)})
+	}
+	return vs
 }
 
 // ---- connect request endpoint ----
@@ -663,6 +756,7 @@ func init() {
 	reg("both", "C16-udp-close-with-abandoned-consumer", "C16", 2, 2, c16CloseAbandoned(false), true)
 	reg("both", "C16-tcp-close-with-abandoned-consumer", "C16", 2, 2, c16CloseAbandoned(true), true)
 	reg("both", "C16-connreq-endpoint", "C16", 0, -1, c16ConnReq(), false)
+	register("both", &h.Scenario{Name: "C03-fullstack-real-socket-send-vs-server-acks", Prop: "C03", P: 2, F: 0, D: 2, Run: c03FullStack(), Check: c03FullStackOracle})
 	// C15's datagram clause ("the total-length field equals the length of the datagram handed to the
 	// network") under concurrent senders shares the sender scenarios
 	reg("both", "C15-udp-senders-3x2", "C15", 2, 2, c16Senders(false, 3, 2), false)
